@@ -244,6 +244,30 @@ def _check_lead(out, model, rom, map_src, lead, a, m, want_sub):
         out.bad(f"{tag}:label-after-advance", want_sub, f"label after {lead}{a:#08x} + {m:#x} bytes = {got if got is None else hex(got)}, expected {exp:#08x}\n{src[:400]}")
 
 
+def _check_leave(out, model, bus, rom_label, a, want_sub):
+    """an advance that leaves the mapped range: either it is refused, or the address it produces is the same thing as the
+    address built directly from that logical value (translation is a function of the logical address; nothing lives in an
+    unmapped bank)"""
+    room = model.room(a)
+    for n in (room, room + 1, room + 0x7FFF, room + 0x10000):
+        try:
+            y = bus.get_address(a) + n
+            lv, yp, yw = y.logical_value, y.physical, y.writable
+        except Exception:
+            continue  # refused
+        try:
+            d = bus.get_address(lv)
+            direct = (d.physical, d.writable)
+        except Exception:
+            out.bad(f"leave:{rom_label}:lands-in-unmapped-bank", want_sub,
+                    f"A={a:#08x}+{n:#x} (the mapped range ends after {room:#x} bytes) produced {lv:#08x}, an address that cannot be built directly (unmapped), with offset {yp}")
+            return
+        if (yp, yw) != direct:
+            out.bad(f"leave:{rom_label}:differs-from-direct", want_sub,
+                    f"A={a:#08x}+{n:#x} produced {lv:#08x} with (offset, writable) = {(yp, yw)}, but that address built directly has {direct}")
+            return
+
+
 def _incs(model, a, seed):
     r = model.range_of(a)
     room = model.room(a)
@@ -331,6 +355,10 @@ def run_case(case) -> Outcome:
                 ev += 1
                 if m + n > r.win_hi - off or off - r.win_lo < 2 or r.win_hi - off < 2 or r.mirror:
                     nt += 1
+            if off in (r.win_lo, r.win_hi) or off == offs[0]:
+                _check_leave(out, model, bus, rom, a, {"t": "leave1", "rom": rom, "a": a})
+                ev += 1
+                nt += 1
         # the same law through a program: the position set by a leading `*=` or a leading `@=` (no *= before it),
         # m filler bytes, then a label
         for off in [o for o in offs if r.win_lo <= o <= r.win_hi][:2]:
@@ -350,6 +378,10 @@ def run_case(case) -> Outcome:
             if model.room(a) > 3 and not out.violations:
                 out.sample = {"advance": f"{rom} {a:#08x}+3", "real": f"{(bus.get_address(a) + 3).logical_value:#08x}",
                               "model": f"{model.advance(a, 3):#08x}"}
+        return out
+    if t == "leave1":
+        _check_leave(out, busmodel.builtin(case["rom"]), _bus(case["rom"]), case["rom"], case["a"], case)
+        out.evals, out.nontrivial = 1, 1
         return out
     if t == "lead1":
         _check_lead(out, model_l := busmodel.builtin(case["rom"]), case["rom"], None, case["lead"], case["a"], case["m"], case)
@@ -416,7 +448,8 @@ def _run_umap(case) -> Outcome:
     for a, m, n in case["probes"]:
         _check_xlate(out, model, bus, label, a, case)
         _check_adv(out, model, bus, label, a, m, n if m + n < model.room(a) else 0, case)
-        ev += 2
+        _check_leave(out, model, bus, label, a, case)
+        ev += 3
         r = model.range_of(a)
         if r.mirror:
             out.labels.append("umap:mirror-probe")
